@@ -417,6 +417,9 @@ func ifs(b bool, x, y string) string {
 
 func c15() []*Ob {
 	return []*Ob{
+		{Prop: "C15", ID: "C15.10", Engine: "PROV(order)", Floor: 2,
+			Desc:  "oldest first starts at start-up: the lists loader.load returns (sealed and unsealed fractions) are derived from the loop over the sorted file names only — no element comes out of a channel or a map iteration on the way (replaying the unsealed fractions concurrently and collecting them as they finish returns them in completion order: FracManager.Load then makes the wrong one the writable fraction and retention, which pops from the front, deletes a younger fraction before an older one)",
+			Check: func(c *Ctx) { loadKeepsNameOrder(c) }},
 		{Prop: "C15", ID: "C15.9", Engine: "PAIR(two sites)", Floor: 1,
 			Desc:  "after a crash between publishing .index and releasing the active fraction the sealed fraction serves the sorted docs: NewSealed does not open the docs file eagerly, or the loader removes the leftover .meta/.docs before it loads the sealed fraction (Sealed.openDocs prefers an existing .docs)",
 			Check: func(c *Ctx) { sealedOpensAfterCleanup(c) }},
